@@ -17,7 +17,7 @@ from py2v import External, Untranslatable, mangle, simple
 
 # test hook (mutation testing of this check on a scratch copy of the repository; ./check runs under `env -i`
 # and can never see it): the tree that is translated and executed
-REPO_ROOT = os.environ.get('VERIF_C08_REPO', '/repo')
+REPO_ROOT = os.environ.get('VERIF_REPO', '/repo')
 RESULTS = 'src/biogeme/results.py'
 LRFILE = 'src/biogeme/tools/likelihood_ratio.py'
 
